@@ -119,9 +119,19 @@ def matchBased : List Char → Option (Char × List Char)
 def baseOf (m : Char) : Nat :=
   if m == 'b' then 2 else if m == 'o' then 8 else if m == 'x' then 16 else 10
 
-/-- `int(group2, base)`; `none` = ValueError (a digit not below the base) -/
+/-- Python's `int(text, base=2)` accepts a base prefix of its own (`int("0b1", 2) == 1`); group 2 can carry
+    one because `b`/`B` are hexadecimal digit characters.  (`0x`/`0o` cannot occur inside group 2, and `0d` is
+    no Python prefix.) -/
+def stripBinPrefix : List Char → List Char
+  | '0' :: p :: rest => if p == 'b' || p == 'B' then rest else '0' :: p :: rest
+  | hs => hs
+
+/-- `int(group2, base)`; `none` = ValueError (no digit left, or a digit not below the base).
+    `Gen.Tokens.intAcceptsBinPrefix` records (probed by the translator) whether the code still lets `int()`
+    swallow a second binary prefix. -/
 def basedValue (m : Char) (hs : List Char) : Option Nat :=
-  if hs.all (fun c => digitVal c < baseOf m) then some (digitsVal (baseOf m) hs) else none
+  let ds := if m == 'b' && Gen.Tokens.intAcceptsBinPrefix then stripBinPrefix hs else hs
+  if !ds.isEmpty && ds.all (fun c => digitVal c < baseOf m) then some (digitsVal (baseOf m) ds) else none
 
 /-- what `NUM_REGEX` matched: group 1 = `ip`, an optional `.`, `fp`; group 4 = `e`, optional sign, digits -/
 structure NumMatch where
